@@ -10,3 +10,4 @@ def run(ck):
     matrix.r3_status_used(ck, P)
     matrix.r4_wide_products(ck, P)
     matrix.r5_rounding_siblings(ck, P)
+    matrix.r6_float_to_fixed_guarded(ck, P)
